@@ -157,24 +157,41 @@ theorem seeds_mem_ids {g : Graph} (hwf : g.refsOk = true) (wl : Whitelist) : ∀
 
 /-! ## the filter, unpacked -/
 
+/-- the starting points handed to the walk: the data types, then the routes the starting docs refer to -/
+def startOf (rs ds : Seeds) : List Id := rs.types ++ ds.types ++ (rs.docRoutes ++ ds.docRoutes)
+
+theorem mem_startOf {rs ds : Seeds} {b : Id} : b ∈ startOf rs ds ↔ b ∈ rs.all ∨ b ∈ ds.all := by
+  simp only [startOf, Seeds.all, List.mem_append]
+  constructor
+  · rintro ((h | h) | (h | h))
+    · exact Or.inl (Or.inl h)
+    · exact Or.inr (Or.inl h)
+    · exact Or.inl (Or.inr h)
+    · exact Or.inr (Or.inr h)
+  · rintro ((h | h) | (h | h))
+    · exact Or.inl (Or.inl h)
+    · exact Or.inr (Or.inl h)
+    · exact Or.inl (Or.inr h)
+    · exact Or.inr (Or.inr h)
+
 theorem whitelistFilter_ok {g : Graph} {wl : Whitelist} {r : Filtered} (h : whitelistFilter g wl = .ok r) :
-    ∃ canon rts wlRoutes dts st,
-      canonicalRoutes g wl.routes = .ok canon ∧ routeWhitelistSeeds g canon = .ok (rts, wlRoutes) ∧
-      datatypeWhitelistSeeds g wl.datatypes = .ok dts ∧
-      dfs g (g.dfsFuel (rts ++ dts).length) ((rts ++ dts).map .node) {} = .ok st ∧
-      r.types = st.types ∧ r.routes = addAll [] (wlRoutes ++ st.routes) ∧
+    ∃ canon rs ds st,
+      canonicalRoutes g wl.routes = .ok canon ∧ routeWhitelistSeeds g canon = .ok rs ∧
+      datatypeWhitelistSeeds g wl.datatypes = .ok ds ∧
+      dfs g (g.dfsFuel (startOf rs ds).length) ((startOf rs ds).map .node) {} = .ok st ∧
+      r.types = st.types ∧ r.routes = addAll [] (rs.ids ++ st.routes) ∧
       filterAliases g st.types (g.dfsFuel 0) g.allAliases = .ok r.aliases ∧
-      r.seen = st.seen ∧ r.start = rts ++ dts := by
+      r.seen = st.seen ∧ r.start = startOf rs ds := by
   simp only [whitelistFilter] at h
   split at h
   · simp at h
   · rename_i canon hc
     split at h
     · simp at h
-    · rename_i rts wlRoutes hr
+    · rename_i rs hr
       split at h
       · simp at h
-      · rename_i dts hd
+      · rename_i ds hd
         split at h
         · simp at h
         · rename_i st hst
@@ -182,17 +199,12 @@ theorem whitelistFilter_ok {g : Graph} {wl : Whitelist} {r : Filtered} (h : whit
           · simp at h
           · rename_i als hals
             cases h
-            exact ⟨canon, rts, wlRoutes, dts, st, hc, hr, hd, hst, rfl, rfl, hals, rfl, rfl⟩
+            exact ⟨canon, rs, ds, st, hc, hr, hd, hst, rfl, rfl, hals, rfl, rfl⟩
 
-/-- the doc targets of a namespace doc / a node doc that are not routes, and the io types of those
-that are, lie in every closed set containing the holder -/
-theorem docStart_closed {g : Graph} {T : Id → Prop} (hT : Closed g T) {ns : String} {refs : List DocRef}
-    (hdoc : ∀ b ∈ docTargets g ns refs, T b) {b : Id} (hb : b ∈ docStart g ns refs) : T b := by
-  simp only [docStart, List.mem_append, List.mem_flatMap] at hb
-  rcases hb with hb | ⟨r, hr, hb⟩
-  · exact hdoc b (mem_specDocs_types.1 hb).1
-  · obtain ⟨h1, h2⟩ := mem_specDocs_routes.1 hr
-    exact io_closed hT (hdoc r h1) h2 hb
+/-- what a doc refers to lies in every set that contains its targets -/
+theorem docStart_closed {g : Graph} {T : Id → Prop} {ns : String} {refs : List DocRef}
+    (hdoc : ∀ b ∈ docTargets g ns refs, T b) {b : Id} (hb : b ∈ docStart g ns refs) : T b :=
+  hdoc b (mem_docStart.1 hb)
 
 theorem node_docTargets_closed {g : Graph} {T : Id → Prop} (hT : Closed g T) {a : Id} {n : Node}
     (hn : g.node? a = some n) (ha : T a) : ∀ b ∈ docTargets g n.ns (docsOf g a), T b := by
@@ -204,10 +216,10 @@ theorem node_docTargets_closed {g : Graph} {T : Id → Prop} (hT : Closed g T) {
 /-- every starting point of the walk lies in every closed set that contains the seeds -/
 theorem start_sound {g : Graph} (hwf : g.refsOk = true) (hda : docsAgree g = true) {wl : Whitelist}
     {T : Id → Prop} (hT : Closed g T) (hseeds : ∀ s ∈ seeds g wl, T s)
-    {canon rts wlRoutes dts}
-    (hc : canonicalRoutes g wl.routes = .ok canon) (hr : routeWhitelistSeeds g canon = .ok (rts, wlRoutes))
-    (hd : datatypeWhitelistSeeds g wl.datatypes = .ok dts) :
-    (∀ b ∈ rts ++ dts, T b) ∧ (∀ r ∈ wlRoutes, T r) := by
+    {canon} {rs ds : Seeds}
+    (hc : canonicalRoutes g wl.routes = .ok canon) (hr : routeWhitelistSeeds g canon = .ok rs)
+    (hd : datatypeWhitelistSeeds g wl.datatypes = .ok ds) :
+    (∀ b ∈ startOf rs ds, T b) ∧ (∀ r ∈ rs.ids, T r) := by
   obtain ⟨i1, i2, i3⟩ := routeWhitelistSeeds_spec hwf hda hc hr
   obtain ⟨d1, d2⟩ := datatypeWhitelistSeeds_spec hda hd
   have hwlr : ∀ p ∈ wl.routes, ∀ r ∈ wlRouteIds g p.1 p.2, T r := by
@@ -220,7 +232,7 @@ theorem start_sound {g : Graph} (hwf : g.refsOk = true) (hda : docsAgree g = tru
     simp only [nsStart] at hb
     split at hb
     · rename_i n hn
-      refine docStart_closed hT ?_ hb
+      refine docStart_closed ?_ hb
       intro c hc'
       apply hseeds
       simp only [seeds, List.mem_append, List.mem_flatMap]
@@ -231,7 +243,7 @@ theorem start_sound {g : Graph} (hwf : g.refsOk = true) (hda : docsAgree g = tru
     simp only [nsStart] at hb
     split at hb
     · rename_i n hn
-      refine docStart_closed hT ?_ hb
+      refine docStart_closed ?_ hb
       intro c hc'
       apply hseeds
       simp only [seeds, List.mem_append, List.mem_flatMap]
@@ -239,14 +251,14 @@ theorem start_sound {g : Graph} (hwf : g.refsOk = true) (hda : docsAgree g = tru
     · simp at hb
   refine ⟨?_, ?_⟩
   · intro b hb
-    rcases List.mem_append.1 hb with hb | hb
+    rcases mem_startOf.1 hb with hb | hb
     · obtain ⟨p, hp, h | ⟨r, hr', h⟩⟩ := (i3 b).1 hb
       · exact hnsr p hp b h
       · have hTr := hwlr p hp r hr'
         obtain ⟨nd, hnd, hk, hns⟩ := wlRouteIds_route hwf hr'
         rcases h with h | h
         · exact io_closed hT hTr (isRouteId_iff.2 ⟨nd, hnd, hk⟩) h
-        · refine docStart_closed hT ?_ h
+        · refine docStart_closed ?_ h
           have := node_docTargets_closed hT hnd hTr
           rwa [hns] at this
     · obtain ⟨p, hp, h | h⟩ := (d2 b).1 hb
@@ -265,7 +277,7 @@ theorem filter_sound {g : Graph} (hwf : g.refsOk = true) (hda : docsAgree g = tr
     {r : Filtered} (h : whitelistFilter g wl = .ok r) {T : Id → Prop} (hT : Closed g T)
     (hseeds : ∀ s ∈ seeds g wl, T s) :
     (∀ t ∈ r.types, T t) ∧ (∀ rt ∈ r.routes, T rt) := by
-  obtain ⟨canon, rts, wlRoutes, dts, st, hc, hr, hd, hst, e1, e2, _, _, _⟩ := whitelistFilter_ok h
+  obtain ⟨canon, rs, ds, st, hc, hr, hd, hst, e1, e2, _, _, _⟩ := whitelistFilter_ok h
   obtain ⟨s1, s2⟩ := start_sound hwf hda hT hseeds hc hr hd
   have := dfs_sound hwf hda hT hst
     (by
@@ -283,6 +295,6 @@ theorem filter_sound {g : Graph} (hwf : g.refsOk = true) (hda : docsAgree g = tr
     · simp at h
     · rcases List.mem_append.1 h with h | h
       · exact s2 rt h
-      · exact (this.2 rt h).1
+      · exact this.2 rt h
 
 end StoneVerif.Graph
